@@ -6,7 +6,9 @@
 (*   nurs[t]   the nurseries it has open, outermost first; a nursery is a   *)
 (*             record [id, ending, kids]  (ending: how the source of the    *)
 (*             `async with` body ends: "plain" | "tryexc" | "tryfin" |      *)
-(*             "condret";  kids: child tasks in start order)                *)
+(*             "condret" | "acm": the nursery is opened inside a stdlib     *)
+(*             @asynccontextmanager generator, the open_service() idiom;   *)
+(*             kids: child tasks in start order)                           *)
 (*   where[t]  "body"   waiting for a command inside its innermost nursery  *)
 (*                      body (or at top level if it has none)               *)
 (*             "aexit"  it has left the body of its innermost nursery,      *)
